@@ -1,5 +1,83 @@
-import TshVerif.Model.Lexer
+/-
+  C12 - Program meaning is independent of layout: what the lexer model guarantees.
+  (i) LF versus CRLF line ends cannot be observed by anything after CRLF normalisation;
+  (ii) blanks and comments never reach the parser: the token list handed to the parser is a function
+       of the kept lexemes only.
+  The parser-level part (blank and comment-only lines at existing line breaks) is decided by the
+  correspondence and the re-layout oracle of the check (DESIGN.md, C12).
+-/
+import TshVerif.Lemmas.Lexer
 namespace Tsh.C12
-open Tsh Tsh.Lexer
+open Tsh Tsh.Lexer Tsh.LexTables
+
+/-- replace every line feed by carriage return + line feed -/
+def toCRLF : Bytes → Bytes
+  | [] => []
+  | b :: rest => if b = 10 then 13 :: 10 :: toCRLF rest else b :: toCRLF rest
+
+theorem normCRLF_id_of_noCR : ∀ (s : Bytes), (∀ b ∈ s, b ≠ 13) → normCRLF s = s := by
+  intro s
+  induction s with
+  | nil => intro _; simp [normCRLF]
+  | cons b t ih =>
+    intro h
+    have hb : b ≠ 13 := h b (by simp)
+    have ht := ih (fun x hx => h x (by simp [hx]))
+    unfold normCRLF
+    split
+    · rename_i heq; simp at heq; exact absurd heq.1 hb
+    · rename_i heq; simp at heq; obtain ⟨rfl, rfl⟩ := heq; rw [ht]
+    · rename_i heq; simp at heq
+
+theorem normCRLF_toCRLF : ∀ (s : Bytes), (∀ b ∈ s, b ≠ 13) → normCRLF (toCRLF s) = s := by
+  intro s
+  induction s with
+  | nil => intro _; simp [toCRLF, normCRLF]
+  | cons b t ih =>
+    intro h
+    have hb : b ≠ 13 := h b (by simp)
+    have ht := ih (fun x hx => h x (by simp [hx]))
+    by_cases h10 : b = 10
+    · subst h10
+      simp [toCRLF, normCRLF, ht]
+    · have : toCRLF (b :: t) = b :: toCRLF t := by simp [toCRLF, h10]
+      rw [this]
+      unfold normCRLF
+      split
+      · rename_i heq; simp at heq; exact absurd heq.1 hb
+      · rename_i heq; simp at heq; obtain ⟨rfl, rfl⟩ := heq; rw [ht]
+      · rename_i heq; simp at heq
+
+/-- **LF versus CRLF**: writing a program with CRLF line ends gives exactly the same lexemes, tokens
+    and positions as writing it with LF line ends. -/
+theorem relayout_crlf (s : Bytes) (h : ∀ b ∈ s, b ≠ 13) :
+    tokenizeTrace (toCRLF s) = tokenizeTrace s ∧ tokenize (toCRLF s) = tokenize s := by
+  have h1 : tokenizeTrace (toCRLF s) = tokenizeTrace s := by
+    simp [tokenizeTrace, normCRLF_toCRLF s h, normCRLF_id_of_noCR s h]
+  exact ⟨h1, by simp [tokenize, h1]⟩
+
+/-- **Blanks and comments never reach the parser**: no token of the token list is a SPACE or COMMENT. -/
+theorem tokens_have_no_layout (src : Bytes) (ts : List Token) (h : tokenize src = .ok ts) :
+    ∀ t ∈ ts, t.ty ≠ TT_SPACE ∧ t.ty ≠ TT_COMMENT := by
+  unfold tokenize at h
+  split at h
+  · rename_i ls pos _
+    simp at h
+    subst h
+    intro t ht
+    simp at ht
+    rcases ht with ⟨l, ⟨_, hl⟩, rfl⟩ | rfl
+    · simp [Lexeme.toToken] at hl ⊢
+      exact hl
+    · simp [TT_EOF, TT_SPACE, TT_COMMENT]
+  · simp at h
+  · simp at h
+
+/-- the token list is a function of the kept (non-blank, non-comment) lexemes and the end position -/
+theorem tokens_from_kept_lexemes (a b : Bytes) (la lb : List Lexeme) (p : Nat × Nat)
+    (ha : tokenizeTrace a = .ok (la, p)) (hb : tokenizeTrace b = .ok (lb, p))
+    (hk : la.filter (fun l => !(l.ty == TT_SPACE || l.ty == TT_COMMENT)) = lb.filter (fun l => !(l.ty == TT_SPACE || l.ty == TT_COMMENT))) :
+    tokenize a = tokenize b := by
+  simp only [tokenize, ha, hb, hk]
 
 end Tsh.C12
